@@ -90,6 +90,7 @@ def monitor_sched(case_lines, out_lines, S, F):
     ev_seen = 0
     marked = {}   # thread -> node offset it has marked removed and not yet unlinked / restored
     inc_total = 0
+    rel_ext, rel_acc = {}, {}
     last_ld, writes, aba_inserts = {}, {}, []   # (tid, loc) -> index of the thread's last load; loc -> [(index, tid)]
     rewound_ = any(x and x[0] in ("rewind", "clear") for ops_ in progs.values() for x in ops_) or any(x and x[0] in ("rewind", "clear") for x in pre_ops)
     di0 = None
@@ -128,7 +129,11 @@ def monitor_sched(case_lines, out_lines, S, F):
             ops = progs.get(tid, [])
             i = nexti.get(tid, 0)
             if i < len(ops) and ops[i][0] in ("drop", "dealloc") and ops[i][1].isdigit():
+                if int(ops[i][1]) in live: rel_ext[(tid, i)] = live[int(ops[i][1])]
                 live.pop(int(ops[i][1]), None)
+                if o.get("ok") == "1" and ((o.get("loc") == "alloc" and o.get("k") == "cas" and int(o.get("new", 0)) < int(o.get("old", 0)))
+                                            or (o.get("loc") == "disc" and o.get("k") == "faa")):
+                    rel_acc[(tid, i)] = True
             if o.get("loc") == "refs" and o.get("k") == "fas" and o.get("new") == "0":
                 refs_zero_by = tid
             # ABA bookkeeping: a linking CAS of a release (optimistic_dealloc#0 / pessimistic_dealloc#0) that succeeds although the
@@ -181,7 +186,10 @@ def monitor_sched(case_lines, out_lines, S, F):
             elif op[0].startswith("alloc_") and r not in ("ok", "InsufficientSpace", "ReadOnly", "nohandle"):
                 V.append(("C04", "bad-error", f"t={tid} {' '.join(op)} -> {r}"))
             elif op[0] in ("drop", "dealloc") and len(op) > 1 and op[1].isdigit():
+                ent_ = rel_ext.pop((tid, i), None)
                 live.pop(int(op[1]), None)
+                if ent_ and ent_[1] > 0 and r == "ok" and not rel_acc.get((tid, i)):
+                    V.append(("C20", "release-unaccounted", f"t={tid} {' '.join(op)} of [{ent_[0]},+{ent_[1]}) neither moved the cursor back nor added to discarded()"))
             elif op[0] == "detach" and len(op) > 1 and op[1].isdigit() and int(op[1]) in live:
                 dead.append(live.pop(int(op[1])))
             elif op[0] == "inc_discarded" and r == "ok":
@@ -194,6 +202,12 @@ def monitor_sched(case_lines, out_lines, S, F):
         elif kind == "hang":
             sig = site_name(o.get("at"), S, F)
             V.append(("C07", f"hang@{sig}", f"thread {o.get('t')} never finishes operation #{o.get('i')}: it keeps executing {norm(l)}"))
+            try:
+                hop = progs.get(int(o.get("t")), [])[int(o.get("i"))]
+            except Exception:
+                hop = ["?"]
+            if hop and hop[0].startswith("alloc_"):
+                V.append(("C04", f"hang@{sig}", f"thread {o.get('t')}: {' '.join(hop)} neither returns a handle nor an error: it keeps executing {norm(l)}"))
         elif kind == "final":
             if o.get("lv") == "0":
                 V.append(("C02", "bytes-changed", "final verification: the bytes of a live handle were modified by someone else"))
